@@ -109,6 +109,10 @@ def gen_tree(rng, n, poly, depth):
                               for _ in range(n)], Fraction(rng.choice([1, 2, -2, 4, -1]), rng.choice([1, 2])))])
             if rng.random() < 0.25:
                 base = gen_tree(rng, n, poly, max(depth - 2, 0))
+        elif rng.random() < 0.25:
+            # larger natural powers (5 = 101b, 6 = 110b, 9 = 1001b, ...) of a one- or two-term function
+            p = rng.choice([4, 5, 6, 7, 9])
+            base = ('lit', gen_lit(rng, n, poly, small=True)[:(1 if p == 9 else 2)])
         else:
             base = gen_tree(rng, n, poly, max(depth - 2, 0))
         return ('pow', base, p)
@@ -422,10 +426,59 @@ def run(ctx):
             ctx.problem('correspondence', 'suite eq: model and implementation disagree on %s (impl %s); oracle: %s'
                         % (eqcases[idx][0], eqcases[idx][2], why), inputs={'suite': 'eq', 'input': eqcases[idx][0], 'property_failure': why},
                         failing_input_found=bool(why))
+    why, inp = oracle_operands(ctx.rng, kept, ctx.n(80, 800))
+    ctx.suites['operands_unchanged'] = {'cases': min(len(kept), ctx.n(80, 800)), 'failure': why}
+    ctx.evaluations += min(len(kept), ctx.n(80, 800))
+    if why:
+        ctx.problem('oracle', 'property fails on the implementation: ' + why, inputs=dict(inp, suite='operands_unchanged'), failing_input_found=True)
     # replay of the repaired defect F4
     why = probe_eq_sym()
     if why:
         ctx.problem('oracle', why, inputs={'suite': 'eq_sym_probe'}, failing_input_found=True)
+
+
+def oracle_operands(rng, kept, limit):
+    """arithmetic never changes its operands: after f (+,-,*) g, g (+,-) f and the accumulating forms, f and g denote the same functions
+    as before (rows, coefficients and the coefficient lookup table), and (f + g) - f is g.  The right operand is drawn so that it often
+    introduces no new monomial and the left one carries float64 coefficients produced by earlier arithmetic."""
+    Signomial, ssm, Polynomial, spm = sigmod()
+    done = 0
+    for t, n, poly in kept:
+        if done >= limit:
+            break
+        try:
+            f = impl_eval(t, n, poly)
+        except Exception:
+            continue
+        if f.m < 2 or f.m > 30:
+            continue
+        done += 1
+        cls = Polynomial if poly else Signomial
+        pick = [i for i in range(f.m) if rng.random() < 0.6] or [0]
+        g = cls(np.asarray(f.alpha)[pick, :].copy(), np.array([float(rng.choice([1, -2, 3, 0.5])) for _ in pick]))
+        variants = [('f as computed', f), ('f / 1.0 + 0.0', f / 1.0 + 0.0)]
+        for label, ff in variants:
+            snap_f, snap_g = canon(ff), canon(g)
+            tab_f = sorted((tuple(k), float(v)) for k, v in ff.alpha_c.items())
+            try:
+                s1 = ff + g
+                d1 = s1 - ff
+                _ = ff - g
+                _ = g + ff
+                _ = ff * g
+                _ = cls.sum([ff, g, g]) if hasattr(cls, 'sum') else None
+            except Exception as e:
+                return 'arithmetic on results raised %r (tree %s)' % (e, tree_json(t)), {'tree': tree_json(t), 'n': n, 'poly': poly}
+            if canon(ff) != snap_f or canon(g) != snap_g:
+                return ('an operand was changed by arithmetic (%s): rows/coefficients before %s, after %s' % (label, snap_f[:4], canon(ff)[:4]),
+                        {'tree': tree_json(t), 'n': n, 'poly': poly, 'g_rows': pick})
+            if sorted((tuple(k), float(v)) for k, v in ff.alpha_c.items()) != tab_f:
+                return 'the coefficient table of an operand changed after arithmetic (%s)' % label, {'tree': tree_json(t), 'n': n, 'poly': poly}
+            want = sorted((tuple(r), c) for r, c in canon(g.without_zeros()) if c != 0)
+            got = sorted((tuple(r), c) for r, c in canon(d1.without_zeros()) if c != 0)
+            if got != want:
+                return '(f + g) - f differs from g (%s): %s vs %s' % (label, got[:4], want[:4]), {'tree': tree_json(t), 'n': n, 'poly': poly, 'g_rows': pick}
+    return None, None
 
 
 def probe_eq_sym():
